@@ -396,6 +396,10 @@ func TestC13HostBinds(t *testing.T) {
 				a := &net.UDPAddr{Port: port}
 				if ip != "" {
 					a.IP = net.ParseIP(ip)
+					if rapid.Bool().Draw(t, "four") {
+						a.IP = a.IP.To4() // the 4-byte form of the same address
+						c.Label("ipform/4-byte")
+					}
 				}
 				return a
 			}
@@ -543,7 +547,11 @@ func TestC13HostBinds(t *testing.T) {
 					// the discarded datagram still sits in its queue: read it away
 				}
 			} else {
-				if _, err := pc.WriteTo([]byte(msg), &net.UDPAddr{IP: net.ParseIP(ip), Port: port}); err != nil {
+				pip := net.ParseIP(ip)
+				if rapid.Bool().Draw(t, "probeFour") {
+					pip = pip.To4()
+				}
+				if _, err := pc.WriteTo([]byte(msg), &net.UDPAddr{IP: pip, Port: port}); err != nil {
 					t.Fatalf("probe: %v", err)
 				}
 				// marker through the same router queue: when it arrives the probe has been handled
